@@ -228,12 +228,7 @@ func UintToBigDecimalFloat(value uint64) apd.Decimal {
 }
 
 func UintToBigInt(value uint64) *big.Int {
-	if value <= 0x7fffffffffffffff {
-		return big.NewInt(int64(value))
-	}
-
-	bi := big.NewInt(int64(value >> 1))
-	return bi.Lsh(bi, 1)
+	return new(big.Int).SetUint64(value)
 }
 
 func UintToInt(value uint64) (int64, error) {
